@@ -546,6 +546,112 @@ def o8(h, st):
     h.done()
 
 
+# ---------------------------------------------------------------------------------------------------------------------
+# P1  get_unitary_circuit_pieces on a circuit of ANY length (loop cut; the constructor under its own contract C11.P4)
+
+from tverif.engine import GhostList, Opaque, stub
+from tverif.interp import GhostIterable
+
+
+class _PiecesLoop(GhostIterable):
+    managed = ("circuits", "gates", "measure_qubits", "cmeasure_flags")
+
+    def __init__(self, h, g, w, init_calls):
+        self.h, self.g, self.w, self.init_calls = h, g, w, init_calls
+        self.gb = snapshot(g.__dict__)
+        self.iterations = 0
+
+    def element(self):
+        self.iterations += 1
+        return self.g
+
+    def init(self, interp, env):
+        self.h.check("on loop entry: four empty, distinct lists", all(env.lookup(k) == [] for k in self.managed) and len({id(env.lookup(k)) for k in self.managed}) == 4)
+        self.h.check("on loop entry: no circuit constructed yet", self.init_calls == [])
+
+    def havoc(self, interp, env):
+        self.lists = {k: GhostList(k) for k in self.managed}
+        for k, v in self.lists.items():
+            env.assign(k, v)
+
+    def step(self, interp, env, broke):
+        h, g, L = self.h, self.g, self.lists
+        h.check("the loop does not stop early", not broke)
+        h.check("source gate unchanged", snapshot(g.__dict__) == self.gb)
+        for k in ("circuits", "measure_qubits", "cmeasure_flags"):
+            h.check(f"{k}: prefix kept (not rebound)", env.lookup(k) is L[k])
+        if g.name not in ("MEASURE", "CMEASURE"):
+            h.check("unitary gate: nothing recorded as a measurement, no circuit closed", all(L[k].appended == [] for k in ("circuits", "measure_qubits", "cmeasure_flags")) and self.init_calls == [])
+            h.check("unitary gate: current piece kept and extended by exactly one gate", env.lookup("gates") is L["gates"] and len(L["gates"].appended) == 1)
+            if len(L["gates"].appended) == 1:
+                c = L["gates"].appended[0]
+                h.check("unitary gate: the appended gate is a fresh field-wise copy", c is not g and (c.name, c.target, c.control, c.parameter, c.is_variational) == (g.name, g.target, g.control, g.parameter, g.is_variational)
+                        and c.target is not g.target)
+        else:
+            h.check("measurement: exactly one circuit closed, constructed from a deep copy of the current piece with the source's width", len(self.init_calls) == 1
+                    and len(L["circuits"].appended) == 1 and L["circuits"].appended[0] is self.init_calls[0][0][0])
+            if len(self.init_calls) == 1:
+                a, k = self.init_calls[0]
+                gates_arg = a[1] if len(a) > 1 else k.get("gates")
+                h.check("measurement: the closed piece holds (a copy of) all gates accumulated since the last measurement, nothing added",
+                        isinstance(gates_arg, Opaque) and gates_arg._info.get("of") is L["gates"] and gates_arg._info.get("appended") == [])
+                h.check("measurement: closed piece has the source's width", (k.get("n_qubits") if "n_qubits" in k else (a[2] if len(a) > 2 else None)) is self.w)
+            cur = env.lookup("gates")
+            h.check("measurement: a new empty piece is started (a fresh list, or the old one emptied after it was copied)",
+                    (cur == [] and cur is not L["gates"] and L["gates"].appended == []) if not isinstance(cur, GhostList) else (cur is L["gates"] and cur.cleared and cur.appended == []))
+            h.check("measurement: measured qubit = first target", len(L["measure_qubits"].appended) == 1 and L["measure_qubits"].appended[0] is g.target[0])
+            h.check("measurement: flag None for MEASURE, the gate's parameter for CMEASURE", len(L["cmeasure_flags"].appended) == 1
+                    and (L["cmeasure_flags"].appended[0] is None if g.name == "MEASURE" else L["cmeasure_flags"].appended[0] is g.parameter))
+        self.init_calls.clear()
+
+
+@contract("C10", "P1.get_unitary_circuit_pieces.any_length", targets=[(C, "get_unitary_circuit_pieces")], level="P",
+          structures=lambda tier: [{"name": n} for n in ("H", "RY", "CNOT", "CRZ", "SWAP", "MEASURE", "CMEASURE", "XX", "CSWAP")])
+def p1(h, st):
+    """for a circuit of ANY length: the four accumulators start empty; one generic iteration on a generic gate (any kind, symbolic qubit indices), from arbitrary accumulated
+    prefixes: a unitary gate is appended (as a fresh copy) to the current piece and nothing else changes; a MEASURE / CMEASURE closes the current piece - Circuit(deep copy of
+    the accumulated gates, width of the source) appended to the pieces -, records its first target and its flag (None / the parameter) and starts a new empty piece; after the
+    loop the last piece is closed the same way and (pieces, qubits, flags) returned. By induction: concat(piece_i ++ [measure_i]) ++ last piece == the gate list"""
+    if not h.symbolic:
+        h.check("native: covered by O3", True)
+        h.done()
+        return
+    from tangelo.linq import Gate, Circuit
+    name = st["name"]
+    nt = 2 if name in ("SWAP", "XX", "CSWAP") else 1
+    nc = 1 if name.startswith("C") and name != "CMEASURE" else 0
+    qs = [h.integer(f"q{i}") for i in range(nt + nc)]
+    for q in qs:
+        h.assume(q >= 0)
+    for a, b in itertools.combinations(qs, 2):
+        h.assume(a != b)
+    par = {"RY": h.real("theta"), "CRZ": h.real("theta"), "XX": h.real("theta"), "CMEASURE": {"0": [], "1": []}}.get(name, "")
+    g = Gate.__new__(Gate)
+    g.__dict__ = {"name": name, "target": list(qs[:nt]), "control": (list(qs[nt:]) if nc else None), "parameter": par, "is_variational": False}
+    init_calls = []
+    w = h.integer("w")
+    stub(h, C, "Circuit.__init__", lambda a, k: None, log=init_calls)
+    stub(h, C, "Circuit.width", lambda a, k: w)
+    proto = _PiecesLoop(h, g, w, init_calls)
+    src = Circuit.__new__(Circuit)
+    src.__dict__ = {"_gates": proto}
+    out = h.call(C, "get_unitary_circuit_pieces", src)
+    h.check("the loop body was entered once for the generic gate", proto.iterations == 1)
+    h.check("after the loop: the last piece is closed and appended", len(init_calls) == 1 and len(proto.lists["circuits"].appended) == (2 if name in ("MEASURE", "CMEASURE") else 1) and proto.lists["circuits"].appended[-1] is init_calls[0][0][0])
+    if len(init_calls) == 1:
+        a, k = init_calls[0]
+        gates_arg = a[1] if len(a) > 1 else k.get("gates")
+        cur = proto.lists["gates"]
+        if name in ("MEASURE", "CMEASURE"):
+            h.check("after the loop: last piece = the (empty) piece started by the measurement", gates_arg == [] or (isinstance(gates_arg, Opaque) and gates_arg._info.get("of") is cur and cur.cleared and gates_arg._info.get("appended") == []))
+        else:
+            h.check("after the loop: last piece = copy of the current piece", isinstance(gates_arg, Opaque) and gates_arg._info.get("of") is cur)
+        h.check("after the loop: last piece has the source's width", (k.get("n_qubits") if "n_qubits" in k else (a[2] if len(a) > 2 else None)) is w)
+    h.check("(pieces, measured qubits, flags) returned", isinstance(out, tuple) and len(out) == 3 and out[0] is proto.lists["circuits"] and out[1] is proto.lists["measure_qubits"]
+            and out[2] is proto.lists["cmeasure_flags"])
+    h.done()
+
+
 PROPERTY = {
     "level": "other",
     "explanation": "Collapse and the measurement step are proved for every (real) amplitude vector with the random draw opaque (z3, nonlinear reals); the splitting of a circuit at "
